@@ -13,6 +13,7 @@ import (
 	"errors"
 	"fmt"
 	"net/url"
+	"runtime"
 	"strings"
 	"sync"
 
@@ -147,22 +148,22 @@ func callHost(b sd.Balancer) (o res) {
 	return classify(b.Host())
 }
 
-const mwPath = "/p/1"
-
-// callMW makes one request through a load-balancing middleware; "ok" carries the URL seen by
-// the next proxy (handed back inside the response, so that no state is shared between
-// concurrent callers) with the request path removed.
-func callMW(p proxy.Proxy) (o res) {
+// callMW makes request number k through a load-balancing middleware (every request has its
+// own path and query, so that anything kept from an earlier request shows); "ok" carries the
+// URL seen by the next proxy (handed back inside the response, so that no state is shared
+// between concurrent callers) with the request path and query removed.
+func callMW(p proxy.Proxy, k int) (o res) {
 	defer func() {
 		if r := recover(); r != nil {
 			o = res{"panic", fmt.Sprint(r)}
 		}
 	}()
-	resp, err := p(context.Background(), &proxy.Request{Method: "GET", Path: mwPath, Query: url.Values{"q": []string{"1"}}})
+	path := fmt.Sprintf("/p/%d", k)
+	resp, err := p(context.Background(), &proxy.Request{Method: "GET", Path: path, Query: url.Values{"q": []string{fmt.Sprint(k)}}})
 	switch {
 	case err == nil && resp != nil:
 		u, _ := resp.Data["url"].(string)
-		suffix := mwPath + "?q=1"
+		suffix := fmt.Sprintf("%s?q=%d", path, k)
 		if strings.HasSuffix(u, suffix) {
 			return res{"ok", strings.TrimSuffix(u, suffix)}
 		}
@@ -352,7 +353,7 @@ func (g *gen) seqDyn(via int, reps []report, c0 uint64) {
 		p := mw(nextRecorder)
 		for i := range reps {
 			sc.cur = i
-			obs[i] = callMW(p)
+			obs[i] = callMW(p, i)
 		}
 	}
 	t := newTbl()
@@ -368,7 +369,7 @@ func (g *gen) mwFixed(hs []string, M int) {
 	p := proxy.NewRoundRobinLoadBalancedMiddlewareWithSubscriber(sd.FixedSubscriber(hs))(nextRecorder)
 	obs := make([]res, M)
 	for i := range obs {
-		obs[i] = callMW(p)
+		obs[i] = callMW(p, i)
 	}
 	t := newTbl()
 	term := t.wrap(emit.App("CSeqFixed", "1%nat", t.hosts(hs), "false", "0%Z", t.obs(obs), "0%Z"))
@@ -495,7 +496,7 @@ func (g *gen) u32batch(size int) {
 // ---------------------------------------------------------------------------------------
 // concurrent callers (real goroutines released together by closing a gate)
 
-func runConcurrent(k, calls int, setup func(i int), call func(i int) res) [][]res {
+func runConcurrent(k, calls int, setup func(i int), call func(i int) res, extra ...func()) [][]res {
 	per := make([][]res, k)
 	gate := make(chan struct{})
 	var ready, done sync.WaitGroup
@@ -516,6 +517,16 @@ func runConcurrent(k, calls int, setup func(i int), call func(i int) res) [][]re
 			per[i] = mine
 		}(i)
 	}
+	for _, f := range extra {
+		ready.Add(1)
+		done.Add(1)
+		go func(f func()) {
+			defer done.Done()
+			ready.Done()
+			<-gate
+			f()
+		}(f)
+	}
 	ready.Wait()
 	close(gate)
 	done.Wait()
@@ -523,13 +534,14 @@ func runConcurrent(k, calls int, setup func(i int), call func(i int) res) [][]re
 }
 
 type concObs struct {
-	Known  bool     `json:"counter_known"`
-	Hosts  []string `json:"hosts"`
-	K      int      `json:"callers"`
-	Calls  int      `json:"calls_per_caller"`
-	Before uint64   `json:"counter_before"`
-	After  uint64   `json:"counter_after"`
-	Per    [][]res  `json:"per_caller"`
+	Shared *sharedObs `json:"shared,omitempty"`
+	Known  bool       `json:"counter_known"`
+	Hosts  []string   `json:"hosts"`
+	K      int        `json:"callers"`
+	Calls  int        `json:"calls_per_caller"`
+	Before uint64     `json:"counter_before"`
+	After  uint64     `json:"counter_after"`
+	Per    [][]res    `json:"per_caller"`
 }
 
 func concRR(hs []string, k, calls int, c0 uint64, ctor string) concObs {
@@ -589,7 +601,20 @@ func (g *gen) mainPass() {
 	cfg, r := g.cfg, g.r
 	th := cfg.Thorough()
 
+	// sd.NewBalancer picks the random balancer when GOMAXPROCS > 1: the round robin
+	// constructors must not depend on it
+	if runtime.GOMAXPROCS(0) < 2 {
+		runtime.GOMAXPROCS(4)
+	}
+	g.w.Meta["gomaxprocs"] = runtime.GOMAXPROCS(0)
+
 	// ---- regression corpus ----
+	g.shared(5, 3, 11, "fixed", 1) // a shared host slice is shuffled elsewhere in the middle of a cycle
+	for _, c := range mwCtors {
+		if c.kind == "rr" {
+			g.mwByName(c, hostList(5), 16, "fixed")
+		}
+	}
 	g.seqFixed(1, "func", 0, 5, hostList(1))            // one host through a SubscriberFunc: ticket % 1
 	g.seqFixed(1, "fixed", 0, 5, hostList(1))           // one fixed host: the single-host balancer
 	g.seqFixed(0, "fixed", 0, 3, hostList(0))           // no hosts
@@ -634,6 +659,11 @@ func (g *gen) mainPass() {
 		}
 		g.mwFixed(hs, 2*n+1)
 	}
+
+	// ---- every exported middleware constructor by name; shared host slices; instance reuse ----
+	g.allMiddlewareConstructors()
+	g.sharedSlices()
+	g.instanceReuse()
 
 	// ---- scripted dynamic subscribers ----
 	nd := 120
@@ -708,5 +738,5 @@ func (g *gen) mainPass() {
 		g.u32batch(100)
 	}
 	g.w.Meta["uint32n_triples"] = nb * 100
-	g.w.Close("regression corpus (single host, empty/nil list, counter at and across the uint64 wrap, duplicate entries); every list size 0..64 x constructors (FixedSubscriber with lura's own start position / SubscriberFunc with the counter set through the hook) x call counts {n, 2n+1, 3n+2} (thorough: 8 call counts, 4 counter positions) sequentially, and through the round robin middleware; scripted dynamic subscribers (errors, empty, nil, shrinking/growing/permuted lists, duplicates) for round robin, random (injected seeded fastrand.RNG) and the three middlewares; concurrent callers: every size 0..64 and every caller count 1..32 (thorough: the full 65 x 32 grid) with real goroutines; random share over 64 n draws; fastrand.RNG.Uint32n against the multiply-shift model. nontrivial = more than one host (and more than one call / caller)", true)
+	g.w.Close("regression corpus (single host, empty/nil list, counter at and across the uint64 wrap, duplicate entries); every exported middleware constructor of proxy/balancing.go by name (round robin: fairness of the hosts the next proxy sees, GOMAXPROCS > 1; random: membership + share; generic: membership; subscriber variants also over scripted dynamic subscribers); a host slice shared between a round robin balancer (mid cycle) and sd.NewRandomFixedSubscriber, sizes up to 150 (thorough 257), slice compared before/after; instance reuse (one balancer: sequence, concurrent burst, sequence; one middleware instance under concurrent callers with distinct requests); every list size 0..64 x constructors (FixedSubscriber with lura's own start position / SubscriberFunc with the counter set through the hook) x call counts {n, 2n+1, 3n+2} (thorough: 8 call counts, 4 counter positions) sequentially, and through the round robin middleware; scripted dynamic subscribers (errors, empty, nil, shrinking/growing/permuted lists, duplicates) for round robin, random (injected seeded fastrand.RNG) and the three middlewares; concurrent callers: every size 0..64 and every caller count 1..32 (thorough: the full 65 x 32 grid) with real goroutines; random share over 64 n draws; fastrand.RNG.Uint32n against the multiply-shift model. nontrivial = more than one host (and more than one call / caller)", true)
 }
